@@ -416,6 +416,15 @@ func (w *world) step(s Step) StepOut {
 			l.Close()
 		}
 		w.blocked = nil
+	case "crash":
+		// the replica process dies (SIGKILL) and, like a pod, is started again with the same arguments
+		if p := w.procs[s.R]; p != nil {
+			p.mu.Lock()
+			if p.cmd != nil && p.cmd.Process != nil {
+				syscall.Kill(-p.cmd.Process.Pid, syscall.SIGKILL)
+			}
+			p.mu.Unlock()
+		}
 	case "stop":
 		if p := w.procs[s.R]; p != nil {
 			p.mu.Lock()
